@@ -26,8 +26,11 @@ import traceback
 from pathlib import Path
 
 VERIF = Path(__file__).resolve().parent.parent
-EVIDENCE_DIR = VERIF / "evidence"
-REPLAY_DIR = VERIF / "replays"
+# validation runs against a scratch copy of the library (YAWVERIF_SRC) must not overwrite the evidence
+# of /repo: they write below YAWVERIF_OUT instead
+_OUT = Path(os.environ["YAWVERIF_OUT"]) if os.environ.get("YAWVERIF_OUT") else VERIF
+EVIDENCE_DIR = _OUT / "evidence"
+REPLAY_DIR = _OUT / "replays"
 KNOWN_FILE = VERIF / "known_findings.txt"
 
 HELD = "held"
@@ -358,7 +361,7 @@ def finish(check: Check, tier, seed, n_cases, results, wall) -> int:
         wall_s=round(wall, 2),
         violations=sum(len(rs) for rs in new_viol.values()),
     )
-    EVIDENCE_DIR.mkdir(exist_ok=True)
+    EVIDENCE_DIR.mkdir(parents=True, exist_ok=True)
     (EVIDENCE_DIR / f"{check.id}.json").write_text(json.dumps(jsonable(evidence), indent=1))
 
     print(f"[{check.id}] tier={tier} seed={seed} cases={n_cases} executed={n_exec} "
